@@ -32,13 +32,21 @@ func VerifC09CreateRace() {
 			vYield()
 		}
 	}
-	errs := make([]error, 2)
+	nCreators := 2
+	if vThorough() {
+		nCreators = 3
+	}
+	errs := make([]error, nCreators)
 	creator := func(k int, desc string) func() {
 		return func() {
 			errs[k] = CreateRepo(model.RepoDescriptor{Name: "r", Description: desc, Contributor: model.Contributor{Name: "n", Email: "e@x.io"}}, stores)
 		}
 	}
-	vTasks(creator(0, "first"), creator(1, "second"))
+	if nCreators == 3 {
+		vTasks(creator(0, "first"), creator(1, "second"), creator(2, "third"))
+	} else {
+		vTasks(creator(0, "first"), creator(1, "second"))
+	}
 	meta.sched = nil
 	if switched > 0 {
 		vCover("second-creator-ran-between")
@@ -61,10 +69,7 @@ func VerifC09CreateRace() {
 	if !pre {
 		for k := range errs {
 			if errs[k] == nil {
-				want := "first"
-				if k == 1 {
-					want = "second"
-				}
+				want := []string{"first", "second", "third"}[k]
 				vAssert(rd.Description == want, "descriptor-is-the-winners")
 			}
 		}
@@ -282,9 +287,13 @@ func VerifC09RenameRace() {
 	stores := vCtxStoresAll(f.meta, f.vmeta, newVStore("blob"))
 	beforeM, beforeV := vSnapshot(f.meta), vSnapshot(f.vmeta)
 	nBundleKeys := vKeysUnder(f.meta, "bundles/r/")
+	maxSwitch := 2
+	if vThorough() {
+		maxSwitch = 3
+	}
 	switched := 0
 	f.meta.sched = func() {
-		if switched < 2 && vChoose("switch", 2) == 1 {
+		if switched < maxSwitch && vChoose("switch", 2) == 1 {
 			switched++
 			vYield()
 		}
